@@ -53,4 +53,75 @@ MANIFEST = {
                 "starts with nothing set up (OS); 'tearDown attempted exactly once' is proved as 'the key is removed on every "
                 "path right after the single tearDown call site', not over a ghost event log.",
     },
+    'C02': {
+        'text': "Proof of the verdict chain for in-process layers: Runner.run_tests ends with failed == (import_errors or "
+                "failures or errors non-empty) and, outside --post-mortem, ghost count of bad outcomes == growth of "
+                "failures+errors, through the growth contracts of handle_layer_failure (+1), tear_down_unneeded "
+                "(NotImplementedError: +0, other exceptions: +1), run_layer (set-up failure: +1) and run_tests (the unittest "
+                "protocol harness: +1 per addError/addFailure/addUnexpectedSuccess/addSubTest(exc)). The subprocess part "
+                "(spawn_layer_in_subprocess/resume_tests) is an assumed contract here and bounded by the native oracle "
+                "(fake children, real -j runs), labelled bounded.",
+        'note': COMMON_NOTE + "Not decided here: OS exit status; child report transfer (see C07); --post-mortem runs end "
+                "with EndRun and return 'passed' by upstream's documented behaviour (testrunner-debugging.rst). Known "
+                "findings: header-like / unterminated stderr noise (unframed child protocol).",
+    },
+    'C04': {
+        'text': "Proof: exceptional postconditions ('raises only ...') of setup_layer, tear_down_unneeded, run_layer, "
+                "run_tests and Runner.run_tests, and no-raise contracts of every TestResult result method under the "
+                "typestate the unittest call protocol can produce; the protocol itself (CPython 3.12.1 TestCase.run) is an "
+                "operational contract executed by the verifier against the method contracts, so every history (several "
+                "events per test, skips without startTest, KeyboardInterrupt) is a path. Only KeyboardInterrupt-like "
+                "exceptions, MemoryError and exceptions of per-test layer hooks escape.",
+        'note': COMMON_NOTE + "Assumed: formatter methods do not raise; layer hooks do not raise the runner's own EndRun/"
+                "CanNotTearDown; the unittest protocol as read from CPython 3.12.1 (bounded conformance in the native oracle).",
+    },
+    'C05': {
+        'text': "Proof: TestResult.__init__ builds a duplicate-free bases-first list of exactly the layer and its transitive "
+                "bases; testSetUp calls the hook of layers[i] at iteration i, testTearDown that of layers[n-1-i] (exact "
+                "reverse); a ghost 'per-test set-up pending' bit makes balance a precondition of testTearDown, required at "
+                "its only call site (stopTest) and established on every protocol path including the start-less addSkip of "
+                "Python >= 3.12.1.",
+        'note': COMMON_NOTE + "Assumed: per-test hooks do not raise (a raising hook aborts the run by design); that "
+                "startTest precedes the test's own setUp and stopTest follows its tearDown is the unittest protocol.",
+    },
+    'C08': {
+        'text': "Proof: build_filtering_func returns a closure whose value equals the predicate of the statement for every "
+                "pattern list and every name matched by '.', by a loop invariant over the real loop (selected / unselected "
+                "hold exactly the searchers of the positive patterns / of the bodies of the negated ones) and inlining of "
+                "the real closure; regular expressions are an uninterpreted pure predicate.",
+        'note': COMMON_NOTE + "Assumed: re.compile(p).search is a pure predicate; names contain a non-newline character. "
+                "The three corollaries and end-to-end use (find/Filter call sites) are covered by the bounded oracle only.",
+    },
+    'C12': {
+        'text': "Proof of the arithmetic of one layer: startTest/addSkip adjust testsRun by countTestCases, every protocol "
+                "history leaves ghost bad-count == len(failures)+len(errors)+len(unexpectedSuccesses) of the result, "
+                "run_tests passes n_failures == len(failures)+len(unexpectedSuccesses) to the summary and extends the "
+                "runner lists by exactly the result lists (pairs). Totals across processes are bounded (native oracle).",
+        'note': COMMON_NOTE + "Assumed: base-class list appends; formatter. Known finding: skipped count not transferred "
+                "from child processes. Statistics/Filter.report and the child transfer are bounded only.",
+    },
+    'C13': {
+        'text': "Proof over ghost std streams: _setUpStdStreams/_restoreStdStreams contracts, every result method leaves the "
+                "originals installed, stopTest restores them when no event did, every protocol history (and every "
+                "exceptional exit of test(result)) ends with sys.stdout/sys.stderr == the originals; run_tests and "
+                "Runner.run_tests return with the streams unchanged; without --buffer no assignment is reachable; captured "
+                "text is passed to exactly the test_error/test_failure call of the event that drained it.",
+        'note': COMMON_NOTE + "Assumed: io semantics of the capture buffer; tests do not replace the streams themselves. "
+                "Known findings: output written after a test's first result event is not captured (two keys).",
+    },
+    'C16': {
+        'text': "Proof: every bad result method sets shouldStop under --stop-on-error (outside --post-mortem); the protocol "
+                "harness carries it to the end of test(result); call-site obligation in run_tests: no test starts once this "
+                "call recorded a bad outcome (outer invariant over --repeat iterations); call-site obligation in "
+                "Runner.run_tests: no run_layer after the lists grew; final tear-down and verdict on every path.",
+        'note': COMMON_NOTE + "Assumed: unittest protocol; TestResult.stop sets shouldStop. --post-mortem is outside the claim.",
+    },
+    'C19': {
+        'text': "Proof of the report computation: at the test_threads call site new_threads is non-empty and contains "
+                "exactly the threads of the end snapshot that are alive, not in the start snapshot and match no ignore "
+                "pattern (re.match), by a loop invariant over the real loop; startTest and the addSkip fallback take the "
+                "start snapshot.",
+        'note': COMMON_NOTE + "Assumed: threadsupport.enumerate()/sys._current_frames list exactly the running threads; "
+                "identity by ident (known finding: ident reuse within one test).",
+    },
 }
